@@ -54,7 +54,7 @@ func (f *filler) fill(v reflect.Value, tag reflect.StructTag) {
 	case reflect.Int, reflect.Int8, reflect.Int16, reflect.Int32, reflect.Int64:
 		v.SetInt(int64(f.u() % 100))
 	case reflect.Uint8:
-		v.SetUint(f.u()*7 + 1&0xff)
+		v.SetUint(uint64(byte(f.u()*7 + 1)))
 	case reflect.Uint, reflect.Uint16, reflect.Uint32, reflect.Uint64:
 		v.SetUint(1000 + f.u())
 	case reflect.String:
